@@ -51,7 +51,7 @@ def parse (toks : List String) : Option Op :=
     let r : SideChain := { addr := ← addr? a, chainId := ← nat? id, router := ← nat? router, name := ← Hex.ofHex name, btw := ← nat? btw,
                            ccmc := ← Hex.ofHex ccmc, extra := ← Hex.ofHex extra }
     if k == "screg" then pure (.screg (← signers? sg) r) else if k == "scupd" then pure (.scupd (← signers? sg) r) else none
-  | ["admit", sg] => do pure (.admit (← signers? sg))
+  | ["admit", sg] => do pure (.submit (← signers? sg))
   | ["refresh", o] => if o == "-" then some (.refresh none) else do pure (.refresh (some (← addr? o)))
   | ["restart"] => some .restart
   | ["sig", sg, a, cid, subject, sig, _] => do
